@@ -121,7 +121,7 @@ class ClassWorld:
                     ('ecblock', 1.2),
                     ('watchnew', 1), ('cparam', 2.5), ('poison', 1.5), ('addp_bad', 1.5)],
             'C14': [('new', 3), ('newk', 2), ('kset', 5), ('kupdate', 2), ('cset', 3), ('rset', 2), ('ec_open', 3), ('ec_close', 2.5), ('ec_close_first', 1), ('ec_raise', 1.5),
-                    ('touch', 1.5), ('iset', 2), ('nameset', 1), ('kref', 1.5), ('srcset', 1.5), ('newkref', 1), ('srcset_fail', 1), ('srcset_rebind', 1), ('cname', 1), ('ec_flagwatch', 1), ('srcset_invalid', 1), ('ec_flagflip', 1)],
+                    ('touch', 1.5), ('iset', 2), ('nameset', 1), ('kref', 1.5), ('srcset', 1.5), ('newkref', 1), ('srcset_fail', 1), ('srcset_rebind', 1), ('cname', 1), ('ec_flagwatch', 1), ('srcset_invalid', 1), ('ec_flagflip', 1), ('kec', 1.5)],
         }[prop]
         depth = 0
         for _ in range(n_ops):
@@ -149,6 +149,10 @@ class ClassWorld:
                 op['same'] = rng.random() < 0.4
             if k == 'ec_flagflip':
                 op['lookup'] = rng.random() < 0.5
+            if k == 'ec_flagwatch':
+                op['when'] = rng.choice(['exit', 'enter'])
+            if k == 'kec':
+                op['mode'] = rng.choice(['plain', 'touch', 'touch', 'cset', 'cset', 'watch_enter', 'watch_exit'])
             if k == 'new' or k == 'newk':
                 op['kw'] = [p for p in used if p not in ('r',) and rng.random() < 0.3]
             if k == 'addp_bad':
@@ -1004,8 +1008,10 @@ class _Run:
             o = self.insts[i]
             fired = []
 
+            want = op.get('when') != 'enter'
+
             def failing(*events):
-                if events[0].new is True and not fired:
+                if events[0].new is want and not fired:
                     fired.append(1)
                     raise RuntimeError('callback failed')
             h = o.param.watch(failing, ['name'], what='constant')
@@ -1013,12 +1019,65 @@ class _Run:
                 with param.parameterized.edit_constant(o):
                     pass
             except RuntimeError:
-                self.out.stats['fault.constant_flag_watcher_raised_on_exit'] += 1
+                self.out.stats['fault.constant_flag_watcher_raised_on_exit' if want else 'fault.constant_flag_watcher_raised_on_entry'] += 1
             finally:
                 o.param.unwatch(h)
+            if not want and 'k' in self.visible(self.im[i]['c']):
+                # the block was never entered: the object is as locked as before
+                try:
+                    o.k = self.new_list()
+                except TypeError:
+                    pass
+                else:
+                    self.viol('C14.flags', f"edit_constant(I{i}) failed while it was being entered (a watcher of a constant flag raised) and left "
+                                           f"I{i}.k editable outside any block")
             for q in ('k', 'r'):
                 if q in self.visible(self.im[i]['c']):
                     self.ensure_copy(i, q)
+        elif k == 'kec':
+            # a complete edit_constant block on a CLASS: inside it an instance may get its own Parameter object, the class may be
+            # assigned an inherited constant (it gets its own copy of the Parameter), a watcher of the flag may fail while the block
+            # is entered or left. Afterwards every flag is back: no class and no instance of the family can rebind k
+            if 'k' not in self.visible(ci) or self.ec or self.fuzzy:
+                return
+            cls = self.classes[ci]
+            mode = op.get('mode', 'plain')
+            fired, h = [], None
+            if mode in ('watch_enter', 'watch_exit'):
+                want = mode == 'watch_exit'
+
+                def failing(*events):
+                    if events[0].new is want and not fired:
+                        fired.append(1)
+                        raise RuntimeError('callback failed')
+                h = cls.param.watch(failing, ['k'], what='constant')
+            try:
+                try:
+                    with param.parameterized.edit_constant(cls):
+                        if mode == 'touch' and has_inst and ci in self.mro[self.im[i]['c']]:
+                            self.insts[i].param['k']
+                            self.ensure_copy(i, 'k')
+                        elif mode == 'cset':
+                            self.do(dict(op, op='cset', p='k'))
+                except RuntimeError:
+                    self.out.stats['fault.constant_flag_watcher_raised_in_class_block'] += 1
+            finally:
+                if h is not None:
+                    cls.param.unwatch(h)
+            self.out.stats['probe.edit_constant_on_a_class.' + mode] += 1
+            for c2 in range(nc):
+                if 'k' in self.visible(c2) and (ci in self.mro[c2] or c2 in self.mro[ci]):
+                    if not self.classes[c2].param.objects(instance=False)['k'].constant:
+                        self.viol('C14.flags', f"after edit_constant(K{ci}) ({mode}) the Parameter k of K{c2} is no longer constant")
+            for j, o in enumerate(self.insts):
+                if 'k' in self.visible(self.im[j]['c']) and (ci in self.mro[self.im[j]['c']]):
+                    try:
+                        o.k = self.new_list()
+                    except TypeError:
+                        continue
+                    self.viol('C14.flags', f"after edit_constant(K{ci}) ({mode}) I{j}.k can be rebound outside any block "
+                                           f"(obj.param.k.constant is {o.param.k.constant})")
+                    break
         elif k == 'ec_flagflip' and has_inst:
             # code inside the block flips the `constant` flags it finds itself (the idiom of libraries built on param:
             # obj.param.objects('existing') -> constant = False ... restore) and assigns meanwhile; the instance gets its own
